@@ -9,6 +9,7 @@ import LexVerif.Model.Ops.ParseFloat
 import LexVerif.Model.Ops.GrammarSpec
 import LexVerif.Model.Ops.WriteFloat
 import LexVerif.Model.Ops.WriteAlgos
+import LexVerif.Model.Ops.ParseAlgos
 /-!
 # Driver — line-protocol evaluator of the Lean models and specifications
 
@@ -168,7 +169,8 @@ def specOf (feats : Features) (t : List String) : String :=
 Each `Model/Ops/*.lean` exposes `handle : Features → List String → Option String`. -/
 def modelHandlers : List (Features → List String → Option String) :=
   [LexVerif.Model.Ops.ParseInt.handle, LexVerif.Model.Ops.FormatError.handle, LexVerif.Model.Ops.WriteInt.handle,
-   LexVerif.Model.Ops.ParseFloat.handle, LexVerif.Model.Ops.WriteAlgos.handle, LexVerif.Model.Ops.WriteFloat.handle]
+   LexVerif.Model.Ops.ParseFloat.handle, LexVerif.Model.Ops.ParseAlgos.handle, LexVerif.Model.Ops.WriteAlgos.handle,
+   LexVerif.Model.Ops.WriteFloat.handle]
 
 def modelOf (feats : Features) (t : List String) : String :=
   (modelHandlers.findSome? (fun h => h feats t)).getD "-"
@@ -177,6 +179,7 @@ def modelOf (feats : Features) (t : List String) : String :=
 def specHandlers : List (Features → List String → Option String) :=
   [LexVerif.Model.Ops.FormatError.spec,
    LexVerif.Model.Ops.GrammarSpec.spec,
+   LexVerif.Model.Ops.ParseAlgos.spec,
    LexVerif.Model.Ops.WriteAlgos.spec,
    LexVerif.Model.Ops.WriteFloat.spec]
 
